@@ -106,4 +106,40 @@ PROPS = {
                       'Validated against the real middleware and retry container with a stub manager failing each lookup in each way, and end to end through the real manager.',
         'level_note': 'Trusted: Lean kernel; Kitex rpcinfo/remoteinfo/retry; correspondence harness. Resolver no-panic is covered by C10 (its lookups are typed in the model) and by the harness recovering panics.',
     },
+    'C01': {
+        'rule': 'histories of 30-50 steps against a real manager and the scripted control plane, two thirds with the name table required (Istio) and one third without: lookups (hits, misses, repeated) of 3-5 names per type, full and partial pushes of all four cached types with random subsets, unsolicited extras, duplicate names and undecodable slots (wrong type URL / invalid bytes), name-table updates (4 tables, empty and undecodable ones), unknown-type responses, stream failures (Recv error with reconnect, Send failure, creation failure in the thorough tier) and authentication stops; after every step the client is brought to quiescence and requests (per stream), cache snapshot, interest sets, versions, nonces, name table are observed and the whole trace is validated step by step against the state machine. ' + 'Non-trivial: the history has at least two accepted responses; distinct by the full step list',
+        'assumptions': COMMON_ASSUME + ['resource content is a stamp (one decoded field per type); field fidelity is C11/C12',
+                                         'each operation of the state machine is one critical section of the code; concurrency inside Get is C05-C07'],
+        'level_text': 'Theorem served_eq_fold: for every valid history of the client+manager state machine (pushes of any shape, subscriptions, touches, evictions, stream faults, sender steps, both configurations, '
+                      'unbounded length) and every type and name, the cache equals a declarative backward scan of the history: the most recent decisive operation (an accepted response of that type that carries the name '
+                      'through the interest filter and, for listeners, the C14 binding with the name table current at that response; an accepted full-type response that does not; an eviction). Corollaries: full types replace, '
+                      'merge types keep, latest wins, rejected and other-type responses are not in the fold, never_unsolicited (anything served was carried by an accepted response while subscribed), lds_binding / lds_literal, '
+                      'duplicate names count once. Stated for the facts regenerated from client.go / manager.go / xdsresource.go (bridge facts_seq: full types, handler shapes, UpdateResource statement order, capacities). '
+                      'The state machine is validated by replaying real histories step by step (trace validation) and the backward-scan spec is evaluated directly on the implementation snapshots.',
+        'level_note': 'Trusted: Lean kernel; extractor (syntactic shape recognisers); scripted control plane and quiescence detection (verif hooks); decoders at stamp level.',
+    },
+    'C02': {
+        'rule': 'histories of 30-50 steps against a real manager and the scripted control plane, two thirds with the name table required (Istio) and one third without: lookups (hits, misses, repeated) of 3-5 names per type, full and partial pushes of all four cached types with random subsets, unsolicited extras, duplicate names and undecodable slots (wrong type URL / invalid bytes), name-table updates (4 tables, empty and undecodable ones), unknown-type responses, stream failures (Recv error with reconnect, Send failure, creation failure in the thorough tier) and authentication stops; after every step the client is brought to quiescence and requests (per stream), cache snapshot, interest sets, versions, nonces, name table are observed and the whole trace is validated step by step against the state machine. ' + 'Generator biased to 40% undecodable pushes. Non-trivial: the history contains a rejected response',
+        'assumptions': COMMON_ASSUME + ['E2: the control plane answers, it does not speak first (scripted so)'],
+        'level_text': 'Theorems about one response in an arbitrary state: exactly one request is enqueued, of that type, echoing the nonce, listing the interest set, with the response version and no error iff every slot decoded, else with '
+                      'the previous version and an error (ack_exact); a rejected response leaves cache, name table, version, interest and access bookkeeping unchanged (nack_frame); unknown and never-subscribed types change nothing and enqueue nothing; '
+                      'the acknowledged version after any history is that of the most recent accepted response. Validated by trace replay and by the executable spec on every response step.',
+        'level_note': 'Trusted: Lean kernel; extractor (ackShape, earlyReturn); harness. The non-empty error message of a failed decode is carried by the ackShape fact + C13.',
+    },
+    'C03': {
+        'rule': 'histories of 30-50 steps against a real manager and the scripted control plane, two thirds with the name table required (Istio) and one third without: lookups (hits, misses, repeated) of 3-5 names per type, full and partial pushes of all four cached types with random subsets, unsolicited extras, duplicate names and undecodable slots (wrong type URL / invalid bytes), name-table updates (4 tables, empty and undecodable ones), unknown-type responses, stream failures (Recv error with reconnect, Send failure, creation failure in the thorough tier) and authentication stops; after every step the client is brought to quiescence and requests (per stream), cache snapshot, interest sets, versions, nonces, name table are observed and the whole trace is validated step by step against the state machine. ' + 'Generator biased to 60% lookups. Non-trivial: at least 10 steps',
+        'assumptions': COMMON_ASSUME + ['lookups in these histories are sequential; concurrent lookups are C05-C07 (each registration is one critical section under m.mu and c.mu)'],
+        'level_text': 'Theorems: a request built by a subscription change or an acknowledgement lists exactly the interest set after the change; only subscribe (a lookup missed) and evict change the interest set, and membership after any history '
+                      'is decided by the most recent subscribe/evict of the name; invariant over all reachable states (with stream faults at any position): unless a reconnect is in progress or the sender lost its stream, the last request of every watched type '
+                      'on the live stream - sent or queued - lists the interest set (last_request_tracks_interest), hence at quiescence the last request on the wire equals the interest set; the queue is never stale.',
+        'level_note': 'Trusted: Lean kernel; extractor (watchShape); harness.',
+    },
+    'C04': {
+        'rule': 'histories of 30-50 steps against a real manager and the scripted control plane, two thirds with the name table required (Istio) and one third without: lookups (hits, misses, repeated) of 3-5 names per type, full and partial pushes of all four cached types with random subsets, unsolicited extras, duplicate names and undecodable slots (wrong type URL / invalid bytes), name-table updates (4 tables, empty and undecodable ones), unknown-type responses, stream failures (Recv error with reconnect, Send failure, creation failure in the thorough tier) and authentication stops; after every step the client is brought to quiescence and requests (per stream), cache snapshot, interest sets, versions, nonces, name table are observed and the whole trace is validated step by step against the state machine. ' + 'Generator biased to 22% faults; plus one stop-flood case (1030 missed lookups after an authentication stop, then a cached lookup, under a watchdog). Non-trivial: the history contains a reconnect or a stop',
+        'assumptions': COMMON_ASSUME + ['E1: a stream whose Send fails will fail Recv; E2: the control plane answers, it does not speak first; back-off timing is not modelled'],
+        'level_text': 'Theorems for faults at any position, repeated: nonce_per_stream (16-field invariant of every reachable state: no request on a stream carries a nonce not issued on that stream), resubscribe_on_adopt (one request per watched type, '
+                      'full names, kept version, nonce empty or of the new stream), reconnect resets nonces and drains the queue atomically, faults leave cache/versions/interest/table untouched and are not part of the C01 fold, stop is final '
+                      '(closed stays closed, nothing more reaches the wire), lookups never block after the stop (with the regenerated fact that sendRequest gives up on a stopped client).',
+        'level_note': 'Trusted: Lean kernel; extractor (reconnectShape, sendAborts, reqCap); scripted control plane.',
+    },
 }
